@@ -38,6 +38,8 @@ pub struct IoState {
     /// every write (with its content) and removal since the start, never drained: the storage history that
     /// crash images are cut from (C12)
     pub history: Vec<(bool, String, Vec<u8>)>,
+    /// what the store held when it was created (a node restarted on an existing disk image)
+    pub base: BTreeMap<String, Vec<u8>>,
     /// fail `fetch_block_from_peer` synchronously when set
     pub fetch_fails: bool,
 }
@@ -63,13 +65,20 @@ impl SimIo {
     pub fn files(&self) -> BTreeMap<String, Vec<u8>> {
         self.st.lock().unwrap().files.clone()
     }
+    pub fn base(&self) -> BTreeMap<String, Vec<u8>> {
+        self.st.lock().unwrap().base.clone()
+    }
     pub fn history(&self) -> Vec<(bool, String, Vec<u8>)> {
         self.st.lock().unwrap().history.clone()
     }
     /// a fresh store holding exactly `files`
     pub fn with_files(files: BTreeMap<String, Vec<u8>>) -> Self {
         let io = SimIo::new();
-        io.st.lock().unwrap().files = files;
+        {
+            let mut st = io.st.lock().unwrap();
+            st.base = files.clone();
+            st.files = files;
+        }
         io
     }
 }
